@@ -287,12 +287,18 @@ class Repo:
     def cls(self, modname: str, clsname: str) -> ClassInfo:
         mi = self.module(modname)
         if clsname not in mi.classes:
+            r = self.resolve(mi, clsname)  # moved to another module and re-exported by an import
+            if isinstance(r, ClassInfo):
+                return r
             raise AnalysisError(f"class vanished: {modname}.{clsname}")
         return mi.classes[clsname]
 
     def func(self, modname: str, fname: str) -> FuncInfo:
         mi = self.module(modname)
         if fname not in mi.functions:
+            r = self.resolve(mi, fname)  # moved to another module and re-exported by an import
+            if isinstance(r, FuncInfo):
+                return r
             raise AnalysisError(f"function vanished: {modname}.{fname}")
         return mi.functions[fname]
 
